@@ -148,6 +148,14 @@ func c12DrawCase(rt *rapid.T) *c12Case {
 		}
 		cs.Files[i].Name = name + ".go"
 		cs.Files[i].Mode = c12DrawMode(rt, lbl)
+		if i > 0 && rapid.IntRange(0, 5).Draw(rt, lbl+"hardLink") == 0 {
+			// two names of one file (same inode, same bytes)
+			t := cs.Files[rapid.IntRange(0, i-1).Draw(rt, lbl+"linkOf")]
+			if t.LinkOf == "" {
+				cs.Files[i].Src, cs.Files[i].Role, cs.Files[i].Mode, cs.Files[i].LinkOf = t.Src, "hard-link:"+t.Role, t.Mode, t.Name
+				continue
+			}
+		}
 		if cs.Files[i].Role != "unparseable" && rapid.IntRange(0, 2).Draw(rt, lbl+"deform") == 0 {
 			src, tags := deform(rt, cs.Files[i].Src, lbl)
 			if len(tags) > 0 {
@@ -252,6 +260,17 @@ func c12Exec(base string, cs *c12Case, mode string) *c12Run {
 	if err := run.WriteTree(root, m); err != nil {
 		o.Bad = "harness: " + err.Error()
 		return o
+	}
+	for _, f := range cs.Files {
+		if f.LinkOf != "" {
+			// a second name of the same file
+			p := filepath.Join(root, filepath.FromSlash(f.Name))
+			_ = os.Remove(p)
+			if err := os.Link(filepath.Join(root, filepath.FromSlash(f.LinkOf)), p); err != nil {
+				o.Bad = "harness: " + err.Error()
+				return o
+			}
+		}
 	}
 	for _, f := range cs.Files {
 		if f.Mode != 0 {
